@@ -144,8 +144,8 @@ Lines == Words \cup {WithNL(w) : w \in Words}
 ZWords == {w \in SeqsUpTo(Sigma \cup {"Z"}, 3) : \E x \in 1..Len(w) : w[x] = "Z"}
 ZLines == ZWords \cup {WithNL(w) : w \in ZWords}
 
-Atoms == {<<"lit", "a">>, <<"lit", "b">>, <<"lit", "E">>, <<"lit", "$">>, <<"lit", "B">>, <<"any">>, <<"cls", <<"a", "b">>>>}
-RWords == SeqsUpTo(Sigma \cup {"$"}, 3) \cup SeqsUpTo(Sigma \cup {"$", "B"}, 2)      \* (a backslash only in short lines)
+Atoms == {<<"lit", "a">>, <<"lit", "b">>, <<"lit", "E">>, <<"lit", "$">>, <<"lit", "B">>, <<"lit", "]">>, <<"any">>, <<"cls", <<"a", "b">>>>}
+RWords == SeqsUpTo(Sigma \cup {"$"}, 3) \cup SeqsUpTo(Sigma \cup {"$", "B", "]"}, 2)      \* (backslash / bracket only in short lines)
 RLines == RWords \cup {WithNL(w) : w \in RWords}
 Ops(S, T) == {<<"rep", x, o>> : x \in S, o \in {"*", "?", "+"}}
              \cup {<<"cat", x, y>> : x \in S, y \in T} \cup {<<"alt", x, y>> : x \in S, y \in T}
